@@ -45,6 +45,11 @@ def describe(line, verdict, case):
     out["branches"] = [n for b, n in sorted(bits.items()) if tag & b]
     if code in (0, 1):
         return out
+    if code == 10:
+        out["signature"] = "xtol-limited accuracy near 0: the result is within 2e-16 of the quantile absolutely, but not within 1e-9 relative (bisectBool xtol = 1e-16, dist.go:124)"
+        if len(diag) >= 2:
+            out["expected_quantile"] = _q(diag[0], diag[1])
+        return out
     op = line[1]
     try:
         if op in (0, 1, 2):
